@@ -3,10 +3,13 @@ package plat
 import (
 	"fmt"
 	"math/rand"
+	"reflect"
 	"strings"
 	"testing"
+	"unsafe"
 
 	"github.com/sarchlab/mgpusim/v4/amd/arch"
+	"github.com/sarchlab/mgpusim/v4/amd/driver"
 
 	"verif/dsim/choice"
 	"verif/dsim/gosched"
@@ -42,6 +45,8 @@ type c01cfg struct {
 	GPUs       int
 	Unified    bool
 	UnifiedMem bool
+	// VAddrShiftBelow > 0: the process allocated (4 GiB - this many pages - 1 page) before the workload
+	VAddrShiftBelow int
 	Mini       bool
 	Permute    bool
 	Desc       string
@@ -138,6 +143,14 @@ func C01(t *testing.T, ch *choice.Source, opt harness.Options, env *Env) harness
 		probes["mini_platform"] = 1
 	}
 	inputSeed := int64(ch.Intn(1<<30, "inputseed"))
+	// address-space position: in some emulation runs the workload's process has allocated nearly 4 GiB
+	// before (on a spare GPU that takes no part in the workload), so that the workload's buffers lie
+	// around a 4 GiB line of its virtual address space (64-bit pointer arithmetic must carry)
+	if !c.Timing && !c.UnifiedMem && c.GPUs < 4 && ch.Bool(1, 6, "vaddr.shift") {
+		c.VAddrShiftBelow = 1 + ch.Intn(96, "vaddr.below")
+		spec.NumGPUs = c.GPUs + 1
+		probes["buffers_around_4gib_line"] = 1
+	}
 	var appErr string
 	class := func() string {
 		mode := "emu"
@@ -178,6 +191,14 @@ func C01(t *testing.T, ch *choice.Source, opt harness.Options, env *Env) harness
 			}
 			b, desc := e.Make(p.Driver, archOf(c.Arch), ch)
 			c.Desc = desc
+			if c.VAddrShiftBelow > 0 {
+				if ctx := contextOf(b); ctx != nil {
+					p.Driver.SelectGPU(ctx, c.GPUs+1)
+					p.Driver.AllocateMemory(ctx, 1<<32-4096-uint64(c.VAddrShiftBelow)*4096)
+				} else {
+					probes["buffers_around_4gib_line"] = 0
+				}
+			}
 			var ids []int
 			for g := 1; g <= c.GPUs; g++ {
 				ids = append(ids, g)
@@ -279,4 +300,18 @@ func ClassifyExitC01(phase string, code int, output string) harness.Result {
 		return harness.Result{Rule: "R2", Signature: cls + "/exit-during-run", Detail: "the workload ended the process during Run(): " + strings.Join(lines, " | "), Log: lines}
 	}
 	return harness.Result{}
+}
+
+// contextOf returns the driver context a shipped workload created for itself
+// (every benchmark keeps it in an unexported field named "context"), or nil.
+func contextOf(b any) *driver.Context {
+	v := reflect.ValueOf(b)
+	if v.Kind() != reflect.Pointer || v.Elem().Kind() != reflect.Struct {
+		return nil
+	}
+	f := v.Elem().FieldByName("context")
+	if !f.IsValid() || f.Type() != reflect.TypeOf((*driver.Context)(nil)) {
+		return nil
+	}
+	return *(**driver.Context)(unsafe.Pointer(f.UnsafeAddr()))
 }
